@@ -15,6 +15,7 @@
 package bstream
 
 import (
+	"fmt"
 	"sync"
 	"time"
 
@@ -107,6 +108,12 @@ func (s *MultiplexedSource) connectSources() {
 			shuttingSrcHandler := HandlerFunc(func(blk *pbbstream.Block, obj interface{}) error {
 				s.handlerLock.Lock()
 				verifPoint("mux.handler_locked")
+				if s.IsTerminating() {
+					// an inner source that was waiting for its turn while the multiplexed source was shut down
+					// must not call the handler any more
+					s.handlerLock.Unlock()
+					return fmt.Errorf("multiplexed source is terminating")
+				}
 				err := s.handler.ProcessBlock(blk, obj)
 				s.handlerLock.Unlock()
 				verifPoint("mux.handler_unlocked")
